@@ -2,7 +2,10 @@
 """Monitor validation: applies a patch to a scratch copy of the repository (outside /repo and /verif), optionally
 runs the repository's own test suite there, and runs the named checks against the copy (CIF_REPO).
 
-  tools/mutant.py [--tests] [--tier quick] <patch.diff> <Cxx> [<Cyy> ...]
+  tools/mutant.py [--tests] [--demo demo.c] [--tier quick] <patch.diff> <Cxx> [<Cyy> ...]
+
+--demo builds the given demonstration program against the patched copy's library (implies a full build) and prints
+its exit status and last lines.
 
 Prints one line per check: DETECTED (exit 1 + VIOLATION), MISSED (exit 0) or INCONCLUSIVE.  The scratch copy is
 removed afterwards.  Evidence files are not touched (VP_NO_EVIDENCE=1)."""
@@ -18,11 +21,15 @@ VERIF = os.path.dirname(os.path.dirname(os.path.abspath(__file__)))
 def main():
     args = sys.argv[1:]
     tests = False
+    demo = None
     tier = 'quick'
     while args and args[0].startswith('--'):
         if args[0] == '--tests':
             tests = True
             args.pop(0)
+        elif args[0] == '--demo':
+            demo = os.path.abspath(args[1])
+            del args[:2]
         elif args[0] == '--tier':
             tier = args[1]
             del args[:2]
@@ -32,7 +39,7 @@ def main():
     scratch = tempfile.mkdtemp(prefix='cifmut.', dir='/var/tmp')
     repo = os.path.join(scratch, 'repo')
     try:
-        if tests:
+        if tests or demo:
             # a full copy is needed to run the suite (in-tree autotools build)
             subprocess.run(['rsync', '-a', '--exclude', '.git', '/repo/', repo + '/'], check=True)
         else:
@@ -49,6 +56,18 @@ def main():
             r = subprocess.run('cd %s && make -k check 2>&1 | grep -E "^# (PASS|FAIL|ERROR)" | tr "\\n" " "' % repo,
                                shell=True, stdout=subprocess.PIPE)
             print('suite:', r.stdout.decode().strip())
+        if demo:
+            if not tests:
+                subprocess.run('cd %s && make >/dev/null 2>&1' % repo, shell=True)
+            exe = os.path.join(scratch, 'demo')
+            r = subprocess.run(['gcc', '-O1', '-I', os.path.join(repo, 'src'), demo, '-o', exe, '-L', os.path.join(repo, 'src', '.libs'),
+                                '-lcif', '-licuio', '-licui18n', '-licuuc', '-lsqlite3', '-lm', '-Wl,-rpath,' + os.path.join(repo, 'src', '.libs')],
+                               stdout=subprocess.PIPE, stderr=subprocess.STDOUT)
+            if r.returncode != 0:
+                print('demo: BUILD-FAILED', r.stdout.decode(errors='replace')[-400:])
+            else:
+                r = subprocess.run([exe], stdout=subprocess.PIPE, stderr=subprocess.STDOUT, cwd=scratch, timeout=600)
+                print('demo: exit %d | %s' % (r.returncode, ' / '.join(r.stdout.decode(errors='replace').strip().splitlines()[-3:])[:400]))
         env = dict(os.environ, CIF_REPO=repo, VP_NO_EVIDENCE='1')
         rcs = {}
         for c in checks:
